@@ -172,6 +172,23 @@ def gen_file(rng):
     return text, names, table, pairs, default, scal
 
 
+def table_snapshot(params):
+    """Plain-data copy of every table of a Parameters object."""
+    def plain(v, depth=0):
+        if isinstance(v, (int, float, str, bool)) or v is None:
+            return v
+        if isinstance(v, (list, tuple)):
+            return [plain(x, depth + 1) for x in v]
+        if isinstance(v, (set, frozenset)):
+            return sorted(plain(x, depth + 1) for x in v)
+        if isinstance(v, dict):
+            return {str(k): plain(x, depth + 1) for k, x in sorted(v.items(), key=lambda kv: str(kv[0]))}
+        if depth < 3 and hasattr(v, "__dict__"):
+            return {str(k): plain(x, depth + 1) for k, x in sorted(vars(v).items())}
+        return repr(type(v))
+    return {k: plain(v) for k, v in vars(params).items()}
+
+
 def creatable_types():
     """Types of the Group subclasses the shipped configuration can create (live classes)."""
     import inspect
@@ -371,8 +388,20 @@ def run_case(case, tier):
         LOOKED_UP.clear()
         recs = sources.full_protein(rng.choice(("1HPX.pdb", "4DFR.pdb", "1FTJ-Chain-A.pdb"))) if rng.random() < 0.3 \
             else sources.random_small_structure(rng, 100, 900)
-        run = obs.run_single(pdbio.dump(recs), write_pka=False)
+        run = obs.run_single(pdbio.dump(recs), keep_mol=True)
         counts["pipeline_runs"] = 1
+        if run.mol is not None:
+            # the tables the molecule holds after its results were computed, logged and written are those of
+            # the file: "for any parameter file ... look-ups give the same answer" also after a report
+            held = table_snapshot(run.mol.version.parameters)
+            fresh = table_snapshot(p)
+            counts["tables_compared_after_run"] = counts.get("tables_compared_after_run", 0) + len(fresh)
+            for k in sorted(set(held) | set(fresh)):
+                if held.get(k) != fresh.get(k):
+                    viol.append({"cls": "tables-changed-by-a-run", "msg": "parameter table %s after a run: %s; freshly read: %s" % (
+                        k, str(held.get(k))[:200], str(fresh.get(k))[:200])})
+                    break
+            run.mol = None
         for (a, b), v in sorted(LOOKED_UP.items()):
             if "ION" in (a, b):
                 continue
